@@ -257,7 +257,7 @@ class Harness(object):
             oc = "aborted"
             ctx.count(name + "|aborted_" + kind)
         ctx.case((name, icls, oc))
-        if (icls.startswith("root:") or icls.startswith("valid")) and steps and ctx.want_sample() and self._sampled.setdefault((name, icls[:9]), 0) < 1:
+        if (icls.startswith("root:") or icls.startswith("valid")) and steps and len(ctx.samples) < 2 and self._sampled.setdefault((name, icls[:9]), 0) < 1:
             self._sampled[(name, icls[:9])] += 1
             ctx.sample(W(outcome=oc))
         # (1) exception class
